@@ -99,6 +99,25 @@ def judge(res, code, feats, canary_offsets, resp):
         res.count("dead_canaries", len(dead_slots - live_slots))
 
 
+def judge_forks(res, code, cfg, resp):
+    """Fork-decision conformance (in-driver monitor over Step / Fork events): a JUMPI with a literal, valid target
+    forks if and only if the executing thread has visited the target fewer times than the iteration limit and the
+    target has been forked to fewer times than the fork limit."""
+    mon = (resp.get("mon") or {})
+    if "fork_decisions" not in mon:
+        return
+    res.count("fork_decisions_checked", mon["fork_decisions"])
+    res.count("fork_refusals_by_limit", mon["fork_refusals_expected"])
+    for m in mon.get("fork_mismatches", [])[:1]:
+        kind = "fork-refused-while-limits-allow" if m["expected"] else "fork-beyond-limits"
+        res.violation("c08:%s" % kind,
+                      "JUMPI at %d -> %d: the thread had visited the target %d times and it had been forked to %d times "
+                      "(limits %s / %s), so a fork was %s, but it %s" % (
+                          m["ip"], m["target"], m["thread_visits_of_target"], m["forks_to_target"], cfg.get("iters", "default"),
+                          cfg.get("forks", "default"), "due" if m["expected"] else "not allowed",
+                          "happened" if m["actual"] else "did not happen"), {"code": code.hex(), "loopy": True, "cfg": cfg})
+
+
 def judge_loopy(res, code, feats, resp):
     """Programs with loops: only the 'subset' half of the property is decidable here - nothing outside the static
     control-flow graph may be executed."""
@@ -128,14 +147,16 @@ def shard(shard_no, nshards, seed, tier, extra):
         # dead code behind the program's own terminators
         code = code + rng.choice([b"", bytes.fromhex("60aa61030055"), bytes.fromhex("5b60bb61030155")])
         cfg = {"permissive": True, "iters": rng.randint(1, 6), "forks": rng.choice([1, 2, 5, 20])}
-        resp = d.call({"op": "analyze", "code": code.hex(), "direct_vm": True, "cfg": cfg,
+        resp = d.call({"op": "analyze", "code": code.hex(), "direct_vm": True, "cfg": cfg, "observe": ["forks"],
                        "wd": {"every": 100, "stop_at": 30000}}, timeout=120)
         judge_loopy(res, code, feats, resp)
+        judge_forks(res, code, cfg, resp)
     for i in range(n):
         code, feats, canary_offsets = progs.controlflow(rng)
-        req = {"op": "analyze", "code": code.hex(), "direct_vm": True, "observe": ["states"], "state_cap": 128,
+        req = {"op": "analyze", "code": code.hex(), "direct_vm": True, "observe": ["states", "forks"], "state_cap": 128,
                "cfg": {"permissive": True}}
         resp = d.call(req, timeout=120)
+        judge_forks(res, code, {"permissive": True}, resp)
         if resp.get("class") in ("ok", "err"):
             full = d.call({"op": "analyze", "code": code.hex(), "stage": "analyze", "cfg": {"permissive": True}},
                           timeout=120)
@@ -169,8 +190,9 @@ def replay(path):
     res = common.Result()
     code = bytes.fromhex(case["code"])
     d = common.Driver("rel", shim=False)
-    resp = d.call({"op": "analyze", "code": code.hex(), "direct_vm": True, "observe": ["states"], "state_cap": 128,
-                   "cfg": {"permissive": True}})
+    rcfg = case.get("cfg") or {"permissive": True}
+    resp = d.call({"op": "analyze", "code": code.hex(), "direct_vm": True, "observe": ["states", "forks"], "state_cap": 128,
+                   "cfg": rcfg})
     full = d.call({"op": "analyze", "code": code.hex(), "stage": "analyze", "cfg": {"permissive": True}})
     if full.get("class") == "ok":
         resp["layout"] = full["layout"]
@@ -178,6 +200,7 @@ def replay(path):
     d.stop()
     if case.get("loopy"):
         judge_loopy(res, code, set(), resp)
+        judge_forks(res, code, rcfg, resp)
     else:
         judge(res, code, {"replay", "x", "y"}, {}, resp)
     for v in res.violations:
